@@ -100,6 +100,16 @@ class _Named:
         self.name = name
 
 
+class _TimeJump:
+    """Alternative: virtual time jumps to the deadline of a sleeping thread, which runs"""
+
+    __slots__ = ("name", "thread")
+
+    def __init__(self, thread):
+        self.thread = thread
+        self.name = "%s@%.6g" % (thread.name, thread.deadline)
+
+
 class EnvEvent:
     """An environment event (e.g. SIGINT arrives): a pseudo thread run by the scheduler"""
 
@@ -123,6 +133,8 @@ class Scheduler:
         spin_time: float = 0.0,
         line_points: bool = False,
         time_horizon: float = 120.0,
+        time_jump_cost: Optional[int] = None,
+        time_jump_max: float = 0.3,
     ):
         self.prefix = list(prefix)
         self.free_switch_cost = free_switch_cost
@@ -130,6 +142,8 @@ class Scheduler:
         self.spin_time = spin_time
         self.line_points = line_points
         self.time_horizon = time_horizon
+        self.time_jump_cost = time_jump_cost
+        self.time_jump_max = time_jump_max
         self.now = 0.0
         self.threads: Dict[str, LT] = {}
         self.by_ident: Dict[int, LT] = {}
@@ -306,6 +320,19 @@ class Scheduler:
         if me_enabled and lt.yielding:
             alts.append(lt)
             costs.append(self.free_switch_cost if others else 0)
+        if alts and self.time_jump_cost is not None:
+            # TIME deviation: the running thread is slow - the earliest timer fires first
+            sleepers = [t for t in self.threads.values()
+                        if t is not lt and t.state == "wait" and t.deadline is not None
+                        and t.deadline != float("inf") and t not in alts]
+            if sleepers:
+                first = min(t.deadline for t in sleepers)
+                # bounded slowness: only timers that are due "soon" may overtake
+                if first <= self.time_horizon and first - self.now <= self.time_jump_max:
+                    for t in sorted(sleepers, key=lambda t: t.name):
+                        if t.deadline == first:
+                            alts.append(_TimeJump(t))
+                            costs.append(self.time_jump_cost)
         if alts:
             # an environment event may happen instead of a thread step; when no thread can
             # run, time passes (events with a deadline fire when it is reached)
@@ -363,6 +390,9 @@ class Scheduler:
                 chosen.fired = True
                 chosen.fire(self)
                 continue
+            if isinstance(chosen, _TimeJump):
+                self.now = max(self.now, chosen.thread.deadline)
+                chosen = chosen.thread
             break
         if chosen is lt:
             return
